@@ -26,6 +26,7 @@ import (
 	"errors"
 	"fmt"
 	"sort"
+	"strconv"
 	"strings"
 	"time"
 
@@ -296,6 +297,140 @@ func projStore(r *Rand) []KV {
 	return kvs
 }
 
+// wide scopes.  projWideLits: multi-byte texts WITHOUT letter case (upper/lower and the empty
+// separator of split are ASCII-only in the model's library, Lib.lean) for the generated
+// statements; the direct cases below use accented letters and invalid UTF-8 as well, on
+// statements without case mapping.
+var projWideLits = []string{"键", "键2", "😅", "一二"}
+var projWidePool = []KV{{"键", "1"}, {"键2", "键"}, {"键值", "9007199254740993"}, {"😅", "2"}, {"一", "x"}, {"一二", "😅"}, {"k键", "7"}}
+var projBigInts = []string{"9007199254740993", "-9007199254740993", "1234567890123456789", "9007199254740992", "4611686018427387905"}
+
+// projBigStore: 35–100 pairs (more than one and more than two batches at the default batch size)
+func projBigStore(r *Rand, wide bool) []KV {
+	n := 35 + r.Intn(66)
+	seen := map[string]bool{}
+	kvs := append([]KV{}, projPool...)
+	prefixes := []string{"a", "b", "k", "k1", "l", "z"}
+	vals := []string{"1", "2", "7", "10", "-4", "3", "x", "abc", "a,b", "", "2.5"}
+	if wide {
+		kvs = append(kvs, projWidePool...)
+		prefixes = append(prefixes, "键")
+		vals = append(vals, "键")
+	}
+	for _, kv := range kvs {
+		seen[kv.K] = true
+	}
+	for len(kvs) < n {
+		k := pick(r, prefixes) + fmt.Sprintf("%02d", r.Intn(100))
+		if seen[k] {
+			continue
+		}
+		seen[k] = true
+		v := pick(r, vals)
+		if r.Chance(1, 6) {
+			v = pick(r, projBigInts)
+		}
+		kvs = append(kvs, KV{k, v})
+	}
+	for i := len(kvs) - 1; i > 0; i-- {
+		j := r.Intn(i + 1)
+		kvs[i], kvs[j] = kvs[j], kvs[i]
+	}
+	return kvs
+}
+
+// projDirect: statements with aliases and projected expressions over wide literals and integers
+// beyond 2^53 whose rows this file computes itself (byte comparisons on the literal as written,
+// strconv on the stored integers): no parser, no model.
+type projDirect struct {
+	q    string
+	rows func(kvs []KV) [][]string // expected rows by content, in key order
+}
+
+func projDirectCase(r *Rand) projDirect {
+	lits := []string{"café", "caf", "cafè", "键", "键2", "é", "😅", "k\xff", "naïve"}
+	sel := func(q string, keep func(kv KV) bool, cols func(kv KV) []string) projDirect {
+		return projDirect{q, func(kvs []KV) [][]string {
+			var out [][]string
+			for _, kv := range projSorted(kvs) {
+				if keep(kv) {
+					out = append(out, cols(kv))
+				}
+			}
+			return out
+		}}
+	}
+	atoi := func(s string) (int64, bool) {
+		n, err := strconv.ParseInt(s, 10, 64)
+		return n, err == nil
+	}
+	switch r.Intn(7) {
+	case 0:
+		l := pick(r, lits)
+		return sel("select key as k, value as v where k = "+quote(l), func(kv KV) bool { return kv.K == l },
+			func(kv KV) []string { return []string{cText(kv.K), cText(kv.V)} })
+	case 1:
+		l := pick(r, lits)
+		return sel("select key, strlen(key) as n where key ^= "+quote(l)+" & n >= 0", func(kv KV) bool { return strings.HasPrefix(kv.K, l) },
+			func(kv KV) []string { return []string{cText(kv.K), cInt(int64(len(kv.K)))} })
+	case 2:
+		a, b := pick(r, lits), pick(r, lits)
+		return sel("select value as v, key where v in ("+quote(a)+", "+quote(b)+") | key = "+quote(a), func(kv KV) bool { return kv.V == a || kv.V == b || kv.K == a },
+			func(kv KV) []string { return []string{cText(kv.V), cText(kv.K)} })
+	case 3:
+		l, m := pick(r, lits), pick(r, lits)
+		return sel("select key + "+quote(l)+" as f1, f1 where f1 != "+quote(m+l), func(kv KV) bool { return kv.K != m },
+			func(kv KV) []string { return []string{cText(kv.K + l), cText(kv.K + l)} })
+	case 4:
+		n := strings.TrimPrefix(pick(r, projBigInts), "-")
+		return sel("select key, int(value) as n where n = "+n, func(kv KV) bool { v, ok := atoi(kv.V); return ok && fmt.Sprint(v) == n },
+			func(kv KV) []string { v, _ := atoi(kv.V); return []string{cText(kv.K), cInt(v)} })
+	case 5:
+		return sel("select key, int(value) as n where is_int(value) & key >= ''", func(kv KV) bool { _, ok := atoi(kv.V); return ok },
+			func(kv KV) []string { v, _ := atoi(kv.V); return []string{cText(kv.K), cInt(v)} })
+	default:
+		return sel("select int(value) as n, n + 1 as m, key where is_int(value) & n > 9007199254740992", func(kv KV) bool { v, ok := atoi(kv.V); return ok && v > 9007199254740992 },
+			func(kv KV) []string { v, _ := atoi(kv.V); return []string{cInt(v), cInt(v + 1), cText(kv.K)} })
+	}
+}
+
+// projDirectStore: the wide literals, their neighbours, integers beyond 2^53
+func projDirectStore(r *Rand, big bool) []KV {
+	pool := []KV{{"caf", "1"}, {"café", "café"}, {"cafè", "2"}, {"cafés", "9007199254740993"}, {"键", "键"}, {"键2", "-9007199254740993"}, {"键值", "x"},
+		{"é", "1234567890123456789"}, {"😅", "é"}, {"k\xff", "7"}, {"k\xff1", "naïve"}, {"naïve", "9007199254740992"}, {"naï", "3"}, {"k", "4611686018427387905"},
+		{"a", "10"}, {"b", "café"}, {"zz", "-4"}, {"\xc3", "😅"}, {"caf\xc3", "5"}, {"m", "+5"}, {"n", "1.5"}}
+	kvs := append([]KV{}, pool...)
+	if big {
+		seen := map[string]bool{}
+		for _, kv := range kvs {
+			seen[kv.K] = true
+		}
+		for n := 40 + r.Intn(60); len(kvs) < n; {
+			k := pick(r, []string{"caf", "café", "键", "k", "z"}) + fmt.Sprintf("%02d", r.Intn(100))
+			if !seen[k] {
+				seen[k] = true
+				kvs = append(kvs, KV{k, pick(r, append([]string{"1", "7", "café", "x", "键"}, projBigInts...))})
+			}
+		}
+	}
+	for i := len(kvs) - 1; i > 0; i-- {
+		j := r.Intn(i + 1)
+		kvs[i], kvs[j] = kvs[j], kvs[i]
+	}
+	if !big {
+		kvs = kvs[:3+r.Intn(len(kvs)-2)]
+	}
+	return kvs
+}
+
+// projWideSafe: the statement applies no case mapping (substr can cut a UTF-8 sequence, and Go's
+// upper/lower replace the invalid bytes by U+FFFD: the model's library domain is ASCII there) and
+// no split (the empty separator cuts after each UTF-8 sequence in Go, after each byte in the model)
+func projWideSafe(q string) bool {
+	l := strings.ToLower(q)
+	return !strings.Contains(l, "upper(") && !strings.Contains(l, "lower(") && !strings.Contains(l, "split(")
+}
+
 // projStatement: the statement of case ix
 func projStatement(r *Rand, ix uint64) string {
 	if ix < uint64(4*len(projFixed)) {
@@ -303,6 +438,18 @@ func projStatement(r *Rand, ix uint64) string {
 	}
 	o := defaultOpts()
 	o.Json = false
+	if ix%9 == 4 {
+		// the wide slice: caseless multi-byte literals (the generator of MODES only: no empty separator)
+		o.KeyLits = append(append([]string{}, o.KeyLits...), projWideLits...)
+		o.ValLits = append(append([]string{}, o.ValLits...), projWideLits...)
+		for try := 0; try < 6; try++ {
+			if q := NewGen(r, o).Select(); projWideSafe(q) {
+				return q
+			}
+		}
+		o = defaultOpts()
+		o.Json = false
+	}
 	switch r.Intn(3) {
 	case 0: // the generator of MODES (aliases in the filter, plain fields too)
 		g := NewGen(r, o)
@@ -320,18 +467,31 @@ func projStatement(r *Rand, ix uint64) string {
 func runPROJECT(e *Env) (*Summary, error) {
 	start := time.Now()
 	n := e.n(6000, 120000)
-	bss := []int{1, 2, 3, 5}
-	rule := fmt.Sprintf("%d statements (%d fixed ones aimed at the cache keys and the lookup by field name, each on 4 stores; the rest from the typed generators of MODES and EVAL: 1–3 fields, aliases referenced in the filter, in function arguments, in other fields, under !, in IN lists) over shuffled stores of 0–17 pairs in which some rows fail the filter between accepted ones; each drained through the real plan in row mode and in batch mode at batch sizes %v with the field cache on and off, against Kvql.Project on the plan's own ASTs; non-trivial when a row is returned and a pair is rejected; distinct by (statement, store, mode, bs, cache)", n, len(projFixed), bss)
+	bss := []int{1, 2, 3, 5, 32}
+	rule := fmt.Sprintf("(a thin slice also at the default batch size 32 on stores of 35–100 pairs, with caseless multi-byte keys and literals, and statements over accented / invalid-UTF-8 literals and integers beyond 2^53 whose rows are computed by the harness itself) %d statements (%d fixed ones aimed at the cache keys and the lookup by field name, each on 4 stores; the rest from the typed generators of MODES and EVAL: 1–3 fields, aliases referenced in the filter, in function arguments, in other fields, under !, in IN lists) over shuffled stores of 0–17 pairs in which some rows fail the filter between accepted ones; each drained through the real plan in row mode and in batch mode at batch sizes %v with the field cache on and off, against Kvql.Project on the plan's own ASTs; non-trivial when a row is returned and a pair is rejected; distinct by (statement, store, mode, bs, cache)", n, len(projFixed), bss)
 	col := NewCollector("PROJECT", e.Tier, e.Seed, rule)
 	saved := kvql.PlanBatchSize
 	defer func() { kvql.PlanBatchSize = saved }()
 	for phase, bs := range bss {
 		kvql.PlanBatchSize = bs
 		err := e.parallel(func(w int, d *Driver) error {
+			// the direct cases: expected rows computed here
+			for ix := uint64(w); ix < uint64(n/12+1); ix += uint64(e.Workers) {
+				r := NewRand(e.Seed, "PROJECT-direct", ix*64+uint64(bs))
+				projDirectRun(e, col, r, bs, ix)
+			}
 			for ix := uint64(w); ix < uint64(n); ix += uint64(e.Workers) {
+				if bs == 32 && ix%8 != 4 {
+					continue // a thin slice at the default batch size
+				}
 				r := NewRand(e.Seed, "PROJECT", ix)
 				q := projStatement(r, ix)
 				kvs := projStore(r)
+				if bs == 32 {
+					kvs = projBigStore(r, projWideSafe(q))
+				} else if ix%9 == 4 && projWideSafe(q) {
+					kvs = append(kvs, projWidePool[:r.Intn(len(projWidePool)+1)]...)
+				}
 				probe := projBuild(q, kvs)
 				if probe.skip != "" {
 					if phase == 0 {
@@ -351,8 +511,8 @@ func runPROJECT(e *Env) (*Summary, error) {
 				res := map[string]run{}
 				hyp := "hyp=?"
 				for _, batch := range []bool{false, true} {
-					if !batch && phase != 0 {
-						continue // row mode does not depend on the batch size
+					if !batch && phase != 0 && bs != 32 {
+						continue // row mode does not depend on the batch size (the stores of the bs=32 phase are its own)
 					}
 					mode := "row"
 					if batch {
@@ -410,6 +570,9 @@ func runPROJECT(e *Env) (*Summary, error) {
 					if phase == 0 && !batch {
 						col.Hist("theorem-hypotheses:" + hyp)
 					}
+					if bs == 32 && batch {
+						col.Hist(fmt.Sprintf("bs32-store:%d", len(kvs)/32*32))
+					}
 					on, off := res[mode+"1"], res[mode+"0"]
 					if a, b := projShow(on.rows, on.class), projShow(off.rows, off.class); a != b {
 						col.Hist("cache-visible:" + hyp)
@@ -428,6 +591,40 @@ func runPROJECT(e *Env) (*Summary, error) {
 		}
 	}
 	return col.Finish(start), nil
+}
+
+// projDirectRun: one direct case, row and batch mode, cache on and off
+func projDirectRun(e *Env, col *Collector, r *Rand, bs int, ix uint64) {
+	dc := projDirectCase(r)
+	kvs := projDirectStore(r, bs == 32 && r.Bool())
+	want := dc.rows(kvs)
+	wants := projShow(want, "ok")
+	col.Hist("direct:judged")
+	if len(want) > 0 {
+		col.Nontrivial(fmt.Sprintf("direct|%s|%v|%d", dc.q, kvs, bs))
+	}
+	for _, batch := range []bool{false, true} {
+		for _, cache := range []bool{false, true} {
+			pp := projBuild(dc.q, kvs)
+			mode := map[bool]string{false: "row", true: "batch"}[batch]
+			cs := fmt.Sprintf("%s  [store %s] bs=%d cache=%v mode=%s", visible(dc.q), showKVs(projSorted(kvs)), bs, cache, mode)
+			if pp.skip != "" {
+				col.Find(Finding{Kind: "property", Group: "PROJECT", Check: "direct-rejected", Case: cs, Line: "MODES " + hxs(dc.q), Engine: pp.skip, Model: wants,
+					Seed: e.Seed, Index: ix, Properties: []string{"C01"}})
+				return
+			}
+			_, content, class := projDrain(pp.plan, batch, cache)
+			col.Eval(1)
+			if got := projShow(content, class); got != wants {
+				props := []string{"C01", "C05"}
+				if strings.Contains(dc.q, "int(value)") {
+					props = []string{"C03", "C01"}
+				}
+				col.Find(Finding{Kind: "property", Group: "PROJECT", Check: "direct-rows-" + mode, Case: cs, Line: "MODES " + hxs(dc.q), Engine: got, Model: wants + " (computed by the harness from the statement as written)",
+					Seed: e.Seed, Index: ix, Properties: props})
+			}
+		}
+	}
 }
 
 // projDefectClass: coarse reason labels for the known shapes (only to group findings)
